@@ -135,7 +135,8 @@ def run(tier, seed, replay=None):
                 judge_bad.append((ops, o["i"], "listing not in timestamp order: %s" % I))
                 break
             if canon(I) != canon(spec):
-                if tainted:
+                # K2 only if a non-fresh push happened AND the model of the code answers like the implementation
+                if tainted and canon(I) == canon(conc_):
                     k2 = k2 or (ops, o["i"])
                 else:
                     judge_bad.append((ops, o["i"], "`%s` returns %s, a FIFO with removal by id returns %s" % (o["op"][:40], I[:100], spec[:100])))
